@@ -17,6 +17,7 @@ import (
 	"fmt"
 	"math/big"
 	"math/rand"
+	"os"
 	"reflect"
 	"sync"
 	"time"
@@ -194,7 +195,18 @@ func buildUconEnv() (*uconEnv, error) {
 	if err := srv.StartMining(env.chain, nopInserter{}, env.mux); err != nil {
 		return nil, err
 	}
-	time.Sleep(300 * time.Millisecond) // let the ContextChangeEvent of the first round reach handler, voter and proposal
+	// StartMining posts the ContextChangeEvent of the first round ASYNCHRONOUSLY and BEFORE the message
+	// handler, the proposal manager and the voter subscribe, so any of them may miss it and then
+	// keeps a nil round until the next step tick (500 ms in production, never here because the timers
+	// are parked). A current-round vote arriving in that window makes Voter.processVoteMsg panic
+	// (msg.Round.Cmp(nil)): a start-up race of the node, not a decoding matter, reported separately.
+	// The harness re-posts the very same event synchronously; TypeMux.Post is a rendezvous with each
+	// subscriber's loop, so after the SECOND Post every component has fully processed the first.
+	if os.Getenv("C14_NO_BARRIER") == "" {
+		ctx := ucon.ContextChangeEvent{Round: new(big.Int).SetUint64(env.round), RoundIndex: 1, Step: ucon.UConStepStart}
+		env.mux.Post(ctx)
+		env.mux.Post(ctx)
+	}
 	return env, nil
 }
 
